@@ -152,6 +152,15 @@ func (r *Run) genForwChain(depth int, m dhcpv6.DHCPv6, w []byte) (dhcpv6.DHCPv6,
 	// count (all zero), count from one, or carry anything at all are on real networks, and nothing may depend on it
 	hopMode := r.Pick(0, 0, 0, 1, 2, 3)
 	mixedTypes := r.Rng.Intn(4) == 0
+	// one option VALUE put on every level (a port label, an operator's remote id): each level still has its own
+	var sharedIID, sharedRID dhcpv6.Option
+	var sharedIIDb, sharedRIDb []byte
+	if r.Rng.Intn(5) == 0 {
+		sharedIIDb = r.Bytes(1 + r.Rng.Intn(6))
+		sharedIID = dhcpv6.OptInterfaceID(sharedIIDb)
+		sharedRIDb = r.Bytes(4 + r.Rng.Intn(6))
+		sharedRID = &dhcpv6.OptRemoteID{EnterpriseNumber: uint32(sharedRIDb[0])<<24 | uint32(sharedRIDb[1])<<16 | uint32(sharedRIDb[2])<<8 | uint32(sharedRIDb[3]), RemoteID: sharedRIDb[4:]}
+	}
 	for i := 0; i < depth; i++ {
 		lv := chainLevel{link: r.Addr16(), peer: r.Addr16(), t: 12, hop: byte(i)}
 		switch hopMode {
@@ -171,6 +180,12 @@ func (r *Run) genForwChain(depth int, m dhcpv6.DHCPv6, w []byte) (dhcpv6.DHCPv6,
 		var ow []byte
 		order := r.Rng.Intn(2)
 		addIID := func() {
+			if sharedIID != nil {
+				lv.iid = sharedIIDb
+				rm.Options.Options = append(rm.Options.Options, sharedIID)
+				ow = append(ow, tlvb(18, lv.iid)...)
+				return
+			}
 			if r.Rng.Intn(2) == 0 {
 				lv.iid = r.Bytes(1 + r.Rng.Intn(6))
 				rm.Options.Options = append(rm.Options.Options, dhcpv6.OptInterfaceID(lv.iid))
@@ -183,6 +198,12 @@ func (r *Run) genForwChain(depth int, m dhcpv6.DHCPv6, w []byte) (dhcpv6.DHCPv6,
 			}
 		}
 		addRID := func() {
+			if sharedRID != nil {
+				lv.rid = sharedRIDb
+				rm.Options.Options = append(rm.Options.Options, sharedRID)
+				ow = append(ow, tlvb(37, lv.rid)...)
+				return
+			}
 			if r.Rng.Intn(2) == 0 {
 				lv.rid = r.Bytes(4 + r.Rng.Intn(6))
 				rm.Options.Options = append(rm.Options.Options, &dhcpv6.OptRemoteID{EnterpriseNumber: uint32(lv.rid[0])<<24 | uint32(lv.rid[1])<<16 | uint32(lv.rid[2])<<8 | uint32(lv.rid[3]), RemoteID: lv.rid[4:]})
